@@ -1829,6 +1829,7 @@ func (n *node) unregisterProcess(p *process, reason error) {
 		qm.Message = reason
 
 		p.node.aliases.Delete(m.id)
+		lib.VerifPoint("meta.xpush", m)
 		if ok := m.system.Push(qm); ok == false {
 			p.log.Error("unable to stop meta process %s. mailbox is full", m.id)
 		}
